@@ -138,7 +138,7 @@ func (c *Ctx) conversion(x *ast.CallExpr, to types.Type, st *State) Val {
 		return a
 	case PtrV:
 		if nt, ok := derefNamed(to); ok {
-			return PtrV{Ref: a.Ref, Named: nt, Cell: a.Cell}
+			return PtrV{Ref: a.Ref, Named: nt, Cell: a.Cell, CellT: a.CellT}
 		}
 		return a
 	case ErrV:
@@ -206,11 +206,12 @@ func (c *Ctx) builtin(name string, x *ast.CallExpr, st *State) []Val {
 		return []Val{c.symbolic(st, "new", types.NewPointer(t))}
 	case "delete":
 		m, ok := c.eval(x.Args[0], st).(MapV)
-		c.eval(x.Args[1], st)
+		dk := c.eval(x.Args[1], st)
 		if ok {
 			nm := c.symbolicMap("deleted", types.NewMap(m.KeyT, m.ValT))
 			c.assume(c.leIdx(nm.Len, m.Len))
 			c.assume("(= " + nm.Nil + " " + m.Nil + ")")
+			c.mapEvents = append(c.mapEvents, mapEvent{Old: m, New: nm, K: dk, Guard: st.guard, Pos: x.Pos(), Del: true})
 			c.assignTo(x.Args[0], nm, st, false)
 		}
 		return nil
